@@ -40,6 +40,7 @@ import (
 	"github.com/canopy-network/canopy/lib/crypto"
 	"verif/c20util"
 	"verif/core"
+	"verif/node"
 )
 
 const (
@@ -78,6 +79,7 @@ type sim struct {
 	twin       *lib.CertificateResult
 	twinTx     []byte
 	lateFailed bool
+	imported   map[string]string // id of an order that came with the genesis state -> how its committee field was set
 }
 
 func (s *sim) note(format string, a ...any) {
@@ -951,10 +953,19 @@ func (s *sim) judge(chain string, in *c20util.BlockInput) bool {
 		case "X":
 			s.run.Count("orders_closed", 1)
 		}
+		if how, ok := s.imported[op.ID]; ok {
+			s.run.Count("operations_on_imported_orders", 1)
+			if op.Op == "X" {
+				s.run.Count("imported_orders_closed_committee_"+how, 1)
+			}
+		}
 		if op.Op == "D" || op.Op == "X" || op.Op == "?" {
 			s.deadIDs = append(s.deadIDs, []byte(op.ID))
 			if len(s.ops[id]) >= 2 {
 				class := map[uint64]string{rootID: "own", nestedID: "nested", ghostID: "harness"}[op.Chain]
+				if how, ok := s.imported[op.ID]; ok {
+					class += "-imported-committee-" + how
+				}
 				s.run.Distinct("order:" + class + ":" + strings.Join(s.ops[id], ""))
 				if os.Getenv("C20_DEBUG") != "" {
 					fmt.Println("DEBUG order:" + class + ":" + strings.Join(s.ops[id], ""))
@@ -1129,7 +1140,41 @@ func eventsOf(r *lib.BlockResult) []string {
 func newSim(t *testing.T, run *core.Run, name, kind string, scale int, rng *rand.Rand) *sim {
 	return &sim{t: t, run: run, name: name, kind: kind, scale: scale, rng: rng, keyOf: map[string]crypto.PrivateKeyI{}, exempt: map[string]bool{},
 		nestQCs: map[uint64]*lib.QuorumCertificate{}, rootQCs: map[uint64]*lib.QuorumCertificate{}, ops: map[string][]string{},
-		executed: map[string][]uint64{}, settled: map[string]bool{}, fellBack: map[string]bool{}}
+		executed: map[string][]uint64{}, settled: map[string]bool{}, fellBack: map[string]bool{}, imported: map[string]string{}}
+}
+
+// genesisBooks makes the sell orders the root chain is born with (a state import): a few per committee, sold by the
+// users. The committee field of an order is set to the chain of its book, left out (0), or names another chain - canopy's
+// genesis validation does not look at it and files the order under the chain id of the book.
+func (s *sim) genesisBooks(users []crypto.PrivateKeyI) *lib.OrderBooks {
+	r := s.rng
+	books := &lib.OrderBooks{}
+	for _, c := range []uint64{rootID, nestedID, ghostID} {
+		b := &lib.OrderBook{ChainId: c}
+		for i, n := 0, 2+r.Intn(4); i < n; i++ {
+			u := users[r.Intn(len(users))]
+			id := crypto.Hash([]byte(fmt.Sprintf("%s-genesis-order-%d-%d", s.name, c, i)))[:20]
+			o := &lib.SellOrder{Id: id, AmountForSale: uint64(1000*(i+1)) + uint64(r.Intn(900)) + c, RequestedAmount: uint64(1 + r.Intn(50_000)),
+				SellerReceiveAddress: addr(u), SellersSendAddress: addr(u)}
+			how := ""
+			switch r.Intn(3) {
+			case 0:
+				o.Committee, how = c, "set"
+			case 1:
+				o.Committee, how = 0, "omitted"
+			default:
+				o.Committee, how = []uint64{rootID, nestedID, ghostID, 7}[(int(c)+r.Intn(3))%4], "other-chain"
+				if o.Committee == c {
+					o.Committee = 7
+				}
+			}
+			s.imported[string(id)] = how
+			b.Orders = append(b.Orders, o)
+			s.run.Count("genesis_orders_imported_committee_"+how, 1)
+		}
+		books.OrderBooks = append(books.OrderBooks, b)
+	}
+	return books
 }
 
 // open builds the two chains and takes the first scans.
@@ -1208,13 +1253,27 @@ func runCase(t *testing.T, run *core.Run, name string, idx int) {
 			return 5_000_000_000
 		}
 	}
-	if err := s.open(c20util.Opts{Vals: 3, Users: 6, WithNested: true, UserFunds: funds,
+	var sellers []crypto.PrivateKeyI
+	for i := 0; i < 6; i++ {
+		sellers = append(sellers, node.EdKey(i)) // the keys c20util.New gives the users
+	}
+	if err := s.open(c20util.Opts{Vals: 3, Users: 6, WithNested: true, UserFunds: funds, RootOrderBooks: s.genesisBooks(sellers),
 		RootPools: map[uint64]uint64{nestedID + fsm.LiquidityPoolAddend: rootPool2, ghostID + fsm.LiquidityPoolAddend: rootPool3},
 		NestPools: map[uint64]uint64{rootID + fsm.LiquidityPoolAddend: nestPool1}}); err != nil {
 		t.Fatalf("%s: %v", name, err)
 	}
 	defer s.e.Close()
 	e := s.e
+	for c, m := range s.rootSt.Orders {
+		for id, o := range m {
+			if how, ok := s.imported[id]; ok {
+				s.run.Count("imported_orders_found_in_state", 1)
+				if (how == "set") != (o.Committee == c) || (how == "omitted") != (o.Committee == 0) {
+					t.Fatalf("%s: imported order %x in book %d: committee field %d does not match what the genesis said (%s)", name, id, c, o.Committee, how)
+				}
+			}
+		}
+	}
 	s.note("%s workload=%s scale=%d root_pool(2)=%d root_pool(3)=%d nested_pool(1)=%d", name, kind, scale, rootPool2, rootPool3, nestPool1)
 	ticks := core.Pick(24, 110)
 	withhold := 0 // > 0: the nested chain's certificates do not reach the root (the liveness fallback must take over)
